@@ -53,7 +53,7 @@ TRIAGE = {
         'named exception: zipped with the index range that nx.disjoint_union assigns to nx.subgraph(modification, non_anchor_idxs), a view that iterates '
         'an equal set built from this one (the code documents the assumption); identical results under 6 hash seeds',
     ('vermouth/processors/repair_graph.py', 'repair_graph', 'extra'): INT,
-    ('vermouth/processors/do_mapping.py', 'modification_matches', 'needed_mod_mappings'):
+    ('vermouth/processors/do_mapping.py', 'modification_matches', 'needed_mod_mappings', 'sorted(key=len)'):
         'ties of sorted(key=len) keep set order: only the order in which modification mappings are tried changes; the placements are re-sorted by atom key in do_mapping',
 }
 
@@ -152,6 +152,8 @@ def run(ck):
             if auto:
                 ck.ob('ORD-hash-order', where, True, '{}: {} over `{}` -- {}'.format(qual, kind, text[:70], auto), key='ORD|auto|{}|{}|{}'.format(module.rel, qual, text[:60]))
                 continue
+            if kind.startswith('call sorted'):
+                key = key + ('sorted(key=len)',)
             reason = TRIAGE.get(key)
             seen_keys.add(key)
             ck.ob('ORD-hash-order', where, reason is not None,
